@@ -49,6 +49,7 @@ int main(int argc, char** argv)
         setenv("VX_REPLAY", "1", 1);
         auto* c = find_check(o.property);
         if (!c) { fprintf(stderr, "unknown property %s\n", o.property.c_str()); return 2; }
+        g_tier = o.tier;
         printf("replaying %s case=%s (recorded key=%s)\n", o.property.c_str(), o.only.c_str(), j.str("key").c_str());
         int r = c->run(o);
         printf(r > 0 ? "replay: violation reproduced\n" : r == 0 ? "replay: no violation\n" : "replay: harness error\n");
@@ -67,6 +68,7 @@ int main(int argc, char** argv)
         }
         auto* c = find_check(o.property);
         if (!c) { fprintf(stderr, "unknown property %s\n", o.property.c_str()); return 2; }
+        g_tier = o.quick() ? "quick" : "thorough";
         int r = c->run(o);
         if (r < 0) return 3;
         return r > 0 ? 1 : 0;
